@@ -86,6 +86,11 @@ def oracle(scn, res):
                        f'op {i} {o[:2]}: {kind} of {len(p)} bytes with ATT_MTU {mtu}')
         confirm = o[0] == 'rx2c' or (o[0] == 'rx' and o[1][:2].lower() == '1e') or \
             (o[0] == 'burst' and any(h[:2].lower() == '1e' for h in o[1]))
+        if o[0] == 'close':
+            # the bearer is gone, and with it ITS outstanding indication -- no other bearer's
+            outstanding[bk] = False
+            if pdus:
+                yield ('pdu-on-closed-bearer', f'op {i}: closing bearer {bk} made the server send {out} on it')
         if confirm:
             outstanding[bk] = False
         for p in pdus:
@@ -302,6 +307,74 @@ def gen_burst_scenario(rng, k, n_ops):
     return scn
 
 
+def gen_close_scenario(rng, k, n_ops):
+    """One connection carrying the fixed ATT bearer and one or two EATT bearers: indications are left
+    unconfirmed on some bearer, ANOTHER enhanced bearer is closed by the peer while the ACL link stays up, then
+    further indications (forced, or through the subscription made before the close) and notifications are
+    issued on the bearers that are still alive, confirmations arrive late."""
+    chars = [{'uuid': '%04X' % (0x2A10 + i), 'props': 0x3A, 'descs': [], 'perm': 3, 'value': ac.gen_value(rng, 60).hex(),
+              'rerr': 0, 'werr': 0, 'flavor': 0} for i in range(2)]
+    db = {'services': [{'uuid': '180F', 'primary': True, 'chars': chars}], 'decl_perm': {}}
+    sec = rng.choice([(False, False), (True, False), (True, True)])
+    n_eatt = rng.choice([1, 2, 2])
+    bearers = [{'mtu': rng.choice(MTUS), 'enc': sec[0], 'auth': sec[1], 'enh': False}]
+    for _ in range(n_eatt):
+        bearers.append({'mtu': rng.choice([23, 30, 48, 64, 100, 247]), 'enc': sec[0], 'auth': sec[1], 'enh': True, 'on': 0})
+    scn = ac.plan_wire(rng, {'db': db, 'bearers': bearers, 'max_mtu': 517, 'ops': []})
+    hs = [3, 6]
+    alive = list(range(len(bearers)))
+    ops = scn['ops']
+    for b in alive:
+        ops.append([b, ['cccd', rng.choice(hs), '0300']])
+        if rng.chance(1, 2):
+            ops.append([b, ['cccd', hs[1], rng.choice(['0200', '0100'])]])
+    for _ in range(n_ops):
+        r = rng.below(20)
+        b = rng.choice(alive)
+        h = rng.choice(hs)
+        val = None if rng.chance(1, 4) else ac.gen_value(rng, 80).hex()
+        closable = [x for x in alive if x != 0]
+        if r < 8:
+            ops.append([b, ['indicate', h, val, rng.chance(1, 2)]])
+        elif r < 11:
+            ops.append([b, ['notify', h, val, rng.chance(1, 3)]])
+        elif r < 14 and closable:
+            y = rng.choice(closable)
+            alive.remove(y)
+            ops.append([y, ['close']])
+            # straight after the close: indications on every bearer that is still alive
+            for x in alive:
+                ops.append([x, ['indicate', rng.choice(hs), ac.gen_value(rng, 30).hex(), True]])
+                ops.append([x, ['indicate', rng.choice(hs), None, False]])
+        elif r < 17:
+            ops.append([b, ['rx', '1e']])
+        elif r < 18:
+            ops.append([b, ['rx', (b'\x0a' + ac.le16(rng.choice([3, 4, 6, 7]))).hex()]])
+        else:
+            ops.append([b, ['cccd', h, rng.choice(['0300', '0200', '0000'])]])
+    return scn
+
+
+def blob_suite(mtus):
+    """Deterministic: Read Blob (and Read) of values shorter than, equal to and longer than ATT_MTU - 1 at
+    offsets 0, 1, len - 1, len, len + 1 -- the ATTRIBUTE_NOT_LONG / INVALID_OFFSET / part-size branches."""
+    out = []
+    for mtu in mtus:
+        lens = [0, 1, mtu - 2, mtu - 1, mtu, mtu + 1, 2 * mtu]
+        chars = [{'uuid': '%04X' % (0x2B00 + i), 'props': 0x0A, 'perm': 3, 'value': bytes((7 * i + j) & 0xFF for j in range(n)).hex(),
+                  'rerr': 0, 'werr': 0, 'flavor': 0, 'descs': []} for i, n in enumerate(lens)]
+        ops = []
+        for i, n in enumerate(lens):
+            h = 3 + 2 * i
+            ops.append(['rx', (b'\x0a' + ac.le16(h)).hex()])
+            for off in sorted({0, 1, max(0, n - 1), n, n + 1, mtu - 1}):
+                ops.append(['rx', (b'\x0c' + ac.le16(h) + ac.le16(off)).hex()])
+        out.append({'db': {'services': [{'uuid': '180A', 'primary': True, 'chars': chars}], 'decl_perm': {}},
+                    'bearer': {'mtu': mtu, 'enc': False, 'auth': False, 'enh': mtu % 2 == 0, 'peer_mtu': mtu},
+                    'max_mtu': 517, 'ops': ops})
+    return out
+
+
 def load_corpus():
     out = []
     for path in sorted(glob.glob(os.path.join(CORPUS, '*.json'))):
@@ -393,10 +466,12 @@ def run(ctx):
     batch = [('corpus', s) for _, s in load_corpus()]
     batch += [('boundary', s) for s in boundary_suite(range(23, 23 + ctx.n(9, 60)), False)]
     batch += [('boundary', s) for s in boundary_suite(range(23, 23 + ctx.n(2, 60), 1), True)]
+    batch += [('boundary', s) for s in blob_suite([23, 24, 48, 100][:ctx.n(3, 4)] + list(range(25, 25 + ctx.n(0, 20))))]
     batch += [('requests', gen_scenario(rng, k, 60)) for k in range(ctx.n(26, 1200))]
     batch += [('initiated', gen_initiated_scenario(rng, 40)) for _ in range(ctx.n(10, 400))]
     batch += [('several-bearers', gen_multi_scenario(rng, k, 70)) for k in range(ctx.n(8, 150))]
     batch += [('bursts', gen_burst_scenario(rng, k, 24)) for k in range(ctx.n(8, 150))]
+    batch += [('bearer-close', gen_close_scenario(rng, k, 30)) for k in range(ctx.n(8, 150))]
     for i in range(0, len(batch), 160):
         check_scenarios(ctx, batch[i:i + 160])
     sent = ctx.extra.pop('opcodes_sent', set())
